@@ -242,9 +242,31 @@ func unicodeRespell(r *rng, s string) string {
 	return b.String()
 }
 
+// lowByteTwin replaces up to k non-alphanumeric ASCII bytes of s by a validly encoded rune
+// whose code point has the same low byte (U+01xx, U+04xx or U+20xx): the bytes differ, but
+// code that walks a string by runes and truncates them to bytes sees the ASCII byte again.
+func lowByteTwin(r *rng, s string, k int) string {
+	b := []byte(s)
+	var out []byte
+	for i := 0; i < len(b); i++ {
+		c := b[i]
+		special := c < 0x80 && !(c >= '0' && c <= '9') && !isLetter(c)
+		if special && k > 0 && r.intn(3) == 0 {
+			k--
+			base := []rune{0x100, 0x400, 0x2000}[r.intn(3)]
+			out = append(out, string(base+rune(c))...)
+		} else {
+			out = append(out, c)
+		}
+	}
+	return string(out)
+}
+
 func mutate(r *rng, s string) string {
 	b := []byte(s)
-	switch r.intn(10) {
+	switch r.intn(11) {
+	case 10: // replace ASCII punctuation by a multi-byte rune with the same low byte
+		return lowByteTwin(r, s, 1+r.intn(3))
 	case 8: // respell letters with the runes that Unicode case mapping folds into them
 		return unicodeRespell(r, s)
 	case 9: // insert a rune whose case mapping changes its encoded length
